@@ -2055,6 +2055,10 @@ func (cpu *CPU) op_mvn() {
 		cpu.RX++
 	}
 
+	if cpu.M == 1 {
+		// the byte count is the full 16-bit C; with an 8-bit accumulator it lives in RAh:RAl
+		cpu.RA = uint16(cpu.RAh)<<8 | uint16(cpu.RAl)
+	}
 	cpu.RA--
 	cpu.RAl = uint8(cpu.RA & 0x00ff)
 	cpu.RAh = uint8(cpu.RA >> 8)
@@ -2079,6 +2083,10 @@ func (cpu *CPU) op_mvp() {
 		cpu.RX--
 	}
 
+	if cpu.M == 1 {
+		// the byte count is the full 16-bit C; with an 8-bit accumulator it lives in RAh:RAl
+		cpu.RA = uint16(cpu.RAh)<<8 | uint16(cpu.RAl)
+	}
 	cpu.RA--
 	cpu.RAl = uint8(cpu.RA & 0x00ff)
 	cpu.RAh = uint8(cpu.RA >> 8)
